@@ -22,8 +22,10 @@ def specOp : SOp → (Int → Option Entry) → (Int → Option Entry)
     | some e => upd f n (some { e with nUserEnd := x, nUser := n }) | none => f
   | .setNewDef _ n b, f => match f n with
     | some e => upd f n (some { e with newDef := b, nUser := n }) | none => f
-  | .modify _ n x tok, f => match f n with
-    | some e => upd f n (some { e with content := tok, nUserEnd := x, newDef := false, nUser := n }) | none => f
+  | .modify k n x tok, f => match f n with
+    | some e => upd f n (some { e with content := tok, nUserEnd := x,
+                                       newDef := if k = .solution then e.newDef else false, nUser := n })
+    | none => f
   | .copy _ i j, f => match f i with
     | some e => upd f j (some (renum e j)) | none => f
   | .copies _ n hi, f => fanSpec f n hi
@@ -242,7 +244,8 @@ theorem save_overwrites (chain : Bool) (ms : Maps) (k : Kind) (n hi : Int) (tok 
 theorem modify_local (ms : Maps) (k : Kind) (n hi : Int) (tok : Nat) (k' : Kind) (x : Int) :
     abs (applySOp ms (.modify k n hi tok)) k' x =
       if k' = k ∧ x = n then
-        (abs ms k n).map fun e => { e with content := tok, nUserEnd := hi, newDef := false, nUser := n }
+        (abs ms k n).map fun e => { e with content := tok, nUserEnd := hi,
+                                           newDef := if k = .solution then e.newDef else false, nUser := n }
       else abs ms k' x := by
   rw [abs_applySOp]
   by_cases hk : k' = k
